@@ -57,6 +57,14 @@ func plan(tier string, seed int64) []driver.Case {
 			for _, cut := range []string{"take1", "take2", "first", "maperr1", "tap-panic"} {
 				cases = append(cases, driver.Case{ID: fmt.Sprintf("op/%s/%s/head", e.Name, cut), P: map[string]string{"kind": "op", "entry": e.Name, "cut": cut, "head": "1"}})
 			}
+			// one source's teardown panics: the others are released all the same
+			if e.NSrc >= 2 && !e.Flags.Has(catalog.Blocks) {
+				for mask := 1; mask < 1<<e.NSrc; mask++ {
+					for _, cut := range []string{"take1", "take2", "unsub1"} {
+						cases = append(cases, driver.Case{ID: fmt.Sprintf("op/%s/%s/tdpanic%d", e.Name, cut, mask), P: map[string]string{"kind": "op", "entry": e.Name, "cut": cut, "tdpanic": fmt.Sprint(mask)}})
+					}
+				}
+			}
 		}
 	}
 	// higher-order operators fed by an asynchronous outer source whose inner observables are
@@ -231,6 +239,9 @@ func runOp(c driver.Case) driver.Result {
 	var srcs []*src.Source
 	for i := 0; i < e.NSrc; i++ {
 		s := src.New(fmt.Sprintf("s%d", i)) // never-ending: emits only when the harness says so
+		if c.Get("tdpanic") != "" && c.Int("tdpanic")&(1<<i) != 0 {
+			s.PanicInTeardown = fmt.Sprintf("teardown of source %d panics", i)
+		}
 		if c.Get("head") == "1" || (c.Get("head") == "inner" && i > 0) {
 			s.Scripts = []src.Script{{src.Notif{K: rec.Next, V: 1}}} // plus one value during Subscribe
 		}
